@@ -556,7 +556,7 @@ def _native_axioms(tier, seed):
     return {"cases": n, "failures": [], "exhaustive": False, "bound": "arithmetic lemmas used as axioms: exhaustive w<=5 / |n|,d<=40, random above"}
 
 
-NATIVE = [("int-ops", _native_int), ("cmpi", _native_cmpi), ("float-ops", _native_float), ("arith-axioms", _native_axioms)]
+NATIVE = [("int-ops", _native_int), ("cmpi", _native_cmpi), ("float-ops", _native_float), ("arith-axioms", _native_axioms), ("index-casts", N.explore_casts)]
 
 ASSUMPTIONS = [
     "Interpreter.run_op/call_op dispatch, the value environment and the cf/scf/func interpreter functions are NOT under contract (control flow is assumed)",
